@@ -9,7 +9,7 @@ EXPLANATION = ("loose::Store::find_inner: the Ok(Data) construction is cut off f
                "the hash::Write that wrapped the compressed tempfile, the path is hash_path(id), the file reaches objects/ only through tempfile persist onto that "
                "path, and the only other file-system call is create_dir of its parent; write/write_buf/write_stream finalize the same writer they wrote header "
                "and content to; on the gix_odb functions reachable from those entry points the count returned by io::Read::read is compared with the constant 0 only "
-               "(a short read is not end-of-stream). Byte-exact git compatibility is not decided.")
+               "(a short read is not end-of-stream). The deflate writer reports all bytes it consumed (C56's count-measured-from-entry, evaluated here too). Byte-exact git compatibility is not decided.")
 P = r"gix_odb::store_impls::loose::"
 
 
